@@ -481,6 +481,22 @@ def main():
     })
     if miss:
         notes.append("extract_consts: " + miss)
+    # thorough tier: independent re-check of the compiled proofs with coqchk
+    coqchk_problem = None
+    if tier == "thorough" and proof_ok and not os.environ.get("VERIF_NO_COQCHK"):
+        with Lock("coq"):
+            rc, out, err, dt = sh(["coqchk", "-silent", "-o", "-Q", "theories", "DivanV", f"DivanV.Properties.{pid}"], cwd=COQ, timeout=2400)
+        text = out + err
+        m = re.search(r"\* Axioms:(.*?)\n\s*\n\* Constants/Inductives relying on type-in-type:(.*?)\n\s*\n\* Constants/Inductives relying on unsafe \(co\)fixpoints:(.*?)\n\s*\n\* Inductives whose positivity is assumed:(.*?)\n", text, re.S)
+        if rc != 0 or not m:
+            coqchk_problem = "coqchk failed: " + text[-600:]
+        else:
+            axs = [a.strip() for a in m.group(1).strip().splitlines() if a.strip() and a.strip() != "<none>"]
+            others = [g.strip() for g in (m.group(2), m.group(3), m.group(4)) if g.strip() != "<none>"]
+            cov["coqchk"] = {"axioms": axs, "wall_s": round(dt, 1), "unsafe": others}
+            bad = [a for a in axs if not any(a.endswith(x) or x in a for x in allowed)]
+            if bad or others:
+                coqchk_problem = "coqchk reports axioms/unsafe features outside the allow-list: " + json.dumps(bad + others)
 
     proof_problem = None
     if not proof_ok:
@@ -493,6 +509,8 @@ def main():
         proof_problem = f"statements of Properties/{pid}.v changed (hash {shash}, pinned {pinned[pid]})"
     elif miss and any(n in miss for n in getattr(prop, "CONSTS_USED", [])):
         proof_problem = "translator anchors not found: " + miss
+    elif coqchk_problem:
+        proof_problem = coqchk_problem
 
     # ---- 2/3. correspondence + violation search --------------------------
     streams = []
